@@ -106,6 +106,9 @@ class LCAONLDFGenerator:
     def get_features(self, rho_in, spin=0, map_grids=True, grad_mode=False):
         # set up arrays
         self._cache[spin] = None
+        nrow = 5 if self.plan.nldf_settings.sl_level == "MGGA" else 4
+        if rho_in.ndim != 2 or rho_in.shape[0] < nrow:
+            raise ValueError("rho_in must have at least {} rows".format(nrow))
         ngrids_ato = self.grids_indexer.ngrids
         idx_map = self.grids_indexer.idx_map
         ngrids = self.grids_indexer.idx_map.size
